@@ -255,6 +255,8 @@ def random_program(rng, nobj=30, nops=150, arena=None, kinds=None, p_collect=0.1
     keyw = keyw if keyw is not None else rng.choice([8, 8, 4, 12])
     if keyw != 8:
         h.lines.append("keyw %d" % keyw)
+    if rng.random() < 0.25:
+        h.lines.append("elemt 1")         # Arrays / Lists / Tables / Trees hold the pointers in inline 1-Tuples instead of Refs
     nxt = 1
     kinds = kinds or (PLAIN + ["Node", "Node", "Box"])
     for _ in range(nops):
